@@ -72,6 +72,10 @@ func MatrixPostProcessors(script *logql_parser.LogQLScript,
 	if err != nil {
 		return nil, err
 	}
+	if duration <= 0 {
+		// FixPeriodPlanner divides by it in a goroutine without recover
+		return nil, &shared.NotSupportedError{Msg: "range vector duration must be positive"}
+	}
 	proc = &ZeroEaterPlanner{internal_planner.GenericPlanner{proc}}
 	proc = &FixPeriodPlanner{
 		Main:     proc,
